@@ -454,6 +454,23 @@ theorem C01_se_tables_generated :
       ((crossElem t.1 (t.2.2 : Int)).toList.filter (· ≠ 0)).length == t.2.1 + 1) = true := by
   decide +kernel
 
+/-- **C01-T5, row loops (the dilation branch as written).** `fastDilateLoops` transliterates the dilation
+branch of `fast_binary_dilate_erode_2d` (as repaired) loop by loop: output initialised with a copy of the
+input (centre set) or all-false; for every row `y` and offset `(dy, dx)`, `dy` adjusted so that `y + dy`
+stays inside, a border loop of `|dx|` iterations ORs the pixels that would leave the image into the edge
+cell of the output row and the main loop of `Nx − |dx|` iterations ORs the input row into the shifted
+output row. For every 2-D 0/1 image (empty ones included) and every element the loops produce the same
+array as the pointwise scatter `fastDilate`, hence (by `C01_fast_dilate_eq_generic`) the same array as the
+generic kernel. The driver prints `fastDilateLoops`; the harness compares it with the real fast path. -/
+theorem C01_fast_dilate_loops_eq_pointwise (A : Img Int) (Ny Nx : Nat) (bshape : List Nat) (bc : Array Int)
+    (hshape : A.shape = [Ny, Nx]) (hdata : A.data.size = A.size)
+    (hA : ∀ q, A.getD q 0 = 0 ∨ A.getD q 0 = 1) :
+    fastDilateLoops A bshape bc = fastDilate A bshape bc := by
+  obtain ⟨shape, data⟩ := A
+  simp only at hshape
+  subst hshape
+  exact fastDilateLoops_eq Ny Nx data bshape bc hdata (data01_of_img [Ny, Nx] data hdata hA)
+
 /-! non-vacuity: a 2×3 int8 image with negative values and a non-flat, even-sized element
     meets every hypothesis of `C01_erode_eq_spec`. -/
 example :
@@ -502,6 +519,7 @@ example :
     (allPos A.shape).map (erodeSpecAt dtBool A sup) = [1, 0, 1, 0, 1, 0, 1, 0, 0, 0, 1, 1] ∧
     (fastErodeLoops A [3, 3] bc).toList = [1, 0, 1, 0, 1, 0, 1, 0, 0, 0, 1, 1] ∧
     (fastDilate D [3, 3] bc).toList = [0, 0, 1, 1, 1, 1, 0, 1, 1, 1, 0, 0] ∧
+    (fastDilateLoops D [3, 3] bc).toList = [0, 0, 1, 1, 1, 1, 0, 1, 1, 1, 0, 0] ∧
     (dilateModel dtBool D sup).toList = [0, 0, 1, 1, 1, 1, 0, 1, 1, 1, 0, 0] ∧
     (allPos D.shape).map (dilateSpecAt dtBool D sup) = [0, 0, 1, 1, 1, 1, 0, 0, 1, 1, 0, 0] := by
   decide +kernel
